@@ -1,5 +1,6 @@
 #!/usr/bin/env python3
-"""Store a confirmed seeded change: seedstore.py <ID> <worktree> <needs> <caught_by_json> [note]"""
+"""Store a confirmed seeded change: seedstore.py <ID> <worktree> <needs> <caught_by_json> [note]
+env ROUND=2 stores under seeded/<ID>-2 and reads the verification output from /tmp/verify2_<ID>.txt"""
 import json
 import os
 import shutil
@@ -8,16 +9,19 @@ import sys
 
 pid, wt, needs, caught = sys.argv[1], sys.argv[2], sys.argv[3], json.loads(sys.argv[4])
 note = sys.argv[5] if len(sys.argv) > 5 else ""
-dst = os.path.join("/verif/seeded", pid)
+rnd = os.environ.get("ROUND", "1")
+dst = os.path.join("/verif/seeded", pid if rnd == "1" else "%s-%s" % (pid, rnd))
 os.makedirs(dst, exist_ok=True)
 shutil.copy(os.path.join(wt, "patch.diff"), os.path.join(dst, "patch.diff"))
 shutil.copy(os.path.join(wt, "demo_%s.py" % pid), os.path.join(dst, "demo_%s.py" % pid))
 if os.path.exists(os.path.join(wt, "notes.txt")):
     shutil.copy(os.path.join(wt, "notes.txt"), os.path.join(dst, "agent_notes.txt"))
-ver = open("/tmp/seedverify_%s.out" % pid).read().strip().splitlines() if os.path.exists("/tmp/seedverify_%s.out" % pid) else []
+vf = "/tmp/seedverify_%s.out" % pid if rnd == "1" else "/tmp/verify%s_%s.txt" % (rnd, pid)
+ver = open(vf).read().strip().splitlines() if os.path.exists(vf) else []
 files = subprocess.run(["grep", "-E", r"^\+\+\+ ", os.path.join(dst, "patch.diff")], stdout=subprocess.PIPE).stdout.decode().split()
 meta = {
     "property": pid,
+    "round": int(rnd),
     "source": "independent sub-agent given only the property text and its own scratch worktree of /repo (HEAD with the fix: commits)",
     "files_changed": [f[2:] for f in files if f.startswith("b/")],
     "needs_to_manifest": needs,
